@@ -251,10 +251,49 @@ func graphs(quick bool) []trav.GraphSpec {
 			out = append(out, trav.GraphSpec{Tree: t, Cuts: cuts})
 		}
 	}
+	// combs: siblings before and after the deep child at every depth, so that a path retained from
+	// one visit is resolved after the walk went on to its siblings and their descendants
+	depth := 6
+	if !quick {
+		depth = 18
+	}
+	for d := 2; d <= depth; d++ {
+		for _, list := range []bool{false, true} {
+			t := comb(d, list)
+			out = append(out, trav.GraphSpec{Tree: t})
+			// every second level its own block (containers sit at preorder positions 0,2,4,...)
+			var cuts []int
+			for k := 1; k < d; k += 2 {
+				cuts = append(cuts, 2*k)
+			}
+			if len(cuts) > 0 {
+				out = append(out, trav.GraphSpec{Tree: t, Cuts: cuts})
+			}
+		}
+	}
 	leaf := ref.Int(7)
 	// a link whose target is itself a link (a block holding only a link): get must follow the chain
 	out = append(out, trav.GraphSpec{Tree: ref.Map(ref.E("a", ref.List(leaf, ref.Map(ref.E("0", leaf), ref.E("1", ref.List(leaf)))))), Cuts: []int{1, 3, 5}})
 	return out
+}
+
+// comb(d): d nested containers, each holding a distinguishable leaf before and after the nested one.
+func comb(d int, list bool) ref.Val {
+	var rec func(k int) ref.Val
+	rec = func(k int) ref.Val {
+		a, c := ref.Int(int64(k)), ref.Int(int64(100+k))
+		if k == d-1 {
+			if list {
+				return ref.List(a, c)
+			}
+			return ref.Map(ref.E("a", a), ref.E("c", c))
+		}
+		if list {
+			return ref.List(a, rec(k+1), c)
+		}
+		return ref.Map(ref.E("a", a), ref.E("b", rec(k+1)), ref.E("c", c))
+	}
+	return rec(0)
 }
 
 func selectors(quick bool) []*trav.Sel {
@@ -284,7 +323,7 @@ func Main(r *core.Run) {
 		}
 	}
 	rec(nil)
-	r.Rule(fmt.Sprintf("%d graphs (trees ≤%d nodes, every cut into blocks, dangling links, link chains); (1) every visit of every walk with %d selectors and of WalkLocal: reported path (as reported and re-parsed) → Get/Focus/stepwise = visited node; (2) every node position addressed by its own keys/indices in string, int and parsed form; (3) every path of ≤3 segments over %v (%d paths) vs the reference resolver; (4) every segment string ≤3 bytes over {a / . 0 é-bytes NUL} and every path of ≤3 such segments through String/ParsePath, Equals as an equivalence. Non-trivial = path of ≥2 segments or crossing a link; distinct by construction.", len(gs), map[bool]int{true: 4, false: 5}[quick], len(ss), segAlphabet, len(paths)))
+	r.Rule(fmt.Sprintf("%d graphs (trees ≤%d nodes, every cut into blocks, dangling links, link chains); (1) every visit of every walk with %d selectors and of WalkLocal: reported path (as reported and re-parsed) → Get/Focus/stepwise = visited node; (2) every node position addressed by its own keys/indices in string, int and parsed form; (3) every path of ≤3 segments over %v (%d paths) vs the reference resolver; (4) every segment string ≤3 bytes over {a / . 0 é-bytes NUL} and every path of ≤3 such segments through String/ParsePath, Equals as an equivalence; (5) paths as values: every program of path operations up to the depth in bounds.path_algebra, every live path compared with its model after every step. Non-trivial = path of ≥2 segments or crossing a link; distinct by construction.", len(gs), map[bool]int{true: 4, false: 5}[quick], len(ss), segAlphabet, len(paths)))
 	r.Assume("non-canonical numerals on lists (\"01\", \"+1\") are unspecified: only Get ⇔ Focus ⇔ stepwise agreement is required there")
 	core.ParallelFor(len(gs), func(gi int) {
 		b := trav.Build(gs[gi])
@@ -346,6 +385,7 @@ func Main(r *core.Run) {
 		}
 	})
 	segmentStrings(r)
+	pathAlgebra(r)
 	r.Sample(Case{Mode: "path", Graph: gs[len(gs)-1], Segs: []string{"a", "1", "1"}, Form: "int"})
 	r.Sample(Case{Mode: "visit", Graph: gs[len(gs)/2], Sel: ss[len(ss)-1]})
 }
@@ -460,6 +500,13 @@ func segmentStrings(r *core.Run) {
 }
 
 func Replay(r *core.Run, mode string, raw json.RawMessage) {
+	if mode == "algebra" {
+		var c AlgCase
+		json.Unmarshal(raw, &c)
+		fs, _ := CheckAlgebra(c.Ops)
+		r.Report("algebra", c, fs)
+		return
+	}
 	if mode == "segments" {
 		var c SegCase
 		json.Unmarshal(raw, &c)
